@@ -12,8 +12,10 @@ Conventions shared with MC_BestAlternative!Concrete: message id of alternative i
 identity at value j of alternative i is 10*i+j, wrong_msg has id 99.  Every message is a unique marker text
 (prefix letter + two-digit id, padded with '_' to the modelled length) so the reported alternative can be told.
 """
+import json
 import os
 import re
+import zlib
 from fractions import Fraction
 
 from engine import dump, traces
@@ -412,6 +414,7 @@ def replay_states(states, extra):
         alts = concrete(c['alts'])
         out = st['out']
         kinds = sorted(kinds_of(alts))
+        h = zlib.crc32(json.dumps(c['alts'], sort_keys=True).encode())      # stable per-case rotation key
         plan = []
         if part == 'table':
             plan = [('table', 'alone')]
@@ -424,10 +427,10 @@ def replay_states(states, extra):
         for wi, (wrong, akey, ckey) in enumerate(((NOMSG, 'none', 'code_none'), (WRONG, 'some', 'code_some'))):
             allowed = out[akey]
             for gi, (g, form) in enumerate(plan):
-                if not full and form != 'alone' and ((n + gi) % 4 != wi):
+                if not full and form != 'alone' and ((h + gi) % 4 != wi):
                     continue            # quick tier: per case and grader one embedding with one wrong_msg setting
                 short = (wi == 0)
-                obs, calls = run_case(g, alts, wrong, form, short=short, variant=n)
+                obs, calls = run_case(g, alts, wrong, form, short=short, variant=h % 6)
                 evals += 1
                 keys.add((g, form, akey, c['n'], obs['k'], tuple(kinds)))
                 if sample is None and c['n'] > 1:
@@ -435,7 +438,7 @@ def replay_states(states, extra):
                 if obs not in allowed:
                     if len(bad) < 40:
                         bad.append({'descs': c['alts'], 'alts': alts, 'wrong': wrong, 'grader': g, 'form': form,
-                                    'short': short, 'variant': n, 'allowed': allowed, 'observed': obs})
+                                    'short': short, 'variant': h % 6, 'allowed': allowed, 'observed': obs})
                     else:
                         bad.append(None)
                     continue
